@@ -427,15 +427,17 @@ theorem customBuildStep_ok {ev flat m srcdir sources combined cb ls ls'}
   simp only [bind, Except.bind, pure, Except.pure] at h
   split at h
   · cases h
-  · rename_i cmd _
-    split at h
+  · split at h
     · cases h
-    · rename_i srcs _
+    · rename_i cmd _
       split at h
       · cases h
-      · rename_i outs _
-        cases h
-        exact ⟨cmd, srcs, outs, rfl⟩
+      · rename_i srcs _
+        split at h
+        · cases h
+        · rename_i outs _
+          cases h
+          exact ⟨cmd, srcs, outs, rfl⟩
 
 theorem customStmts_shape (cb : CustomBuild) (cmd : String) (srcs outs : List String) (combined) :
     ∃ (nr : NinjaRule) (nb : NinjaBuild) (alias : String),
